@@ -214,6 +214,9 @@ def install(ctx, repo, probes):
                 rec._start_point is None or not _usable(rec, p):
             return
         pts, complete = _members(ctx, repo, rec)
+        if pts and p._minute_of_hour is None and \
+                (R.tp_offset_minutes(p) - R.tp_offset_minutes(pts[0])) % 60:
+            return      # decimal-hour probe re-zoned by minutes: tolerance
         insts = _member_insts(ctx, repo, rec, pts)
         ip = inst(p)
         if ip.denominator != 1:
